@@ -241,6 +241,8 @@ def run_C13(tier, seed, t0):
                 continue
             if (func in slow or func.startswith('commentq_')) and tier != 'thorough':
                 continue
+            if func == 'sepchars_amo':
+                continue      # five operands x two symbolic separator characters: CrossHair cannot even meet the precondition in 300 s
             ncond += 1
             specs.append(('harness.xhair', 'xhair_task', ('C13', fn, to, [func, func + '__mustfail'])))
     for m in ('jalr', 'lb', 'lh', 'lw', 'lbu', 'lhu', 'sb', 'sh', 'sw', 'c.lw', 'c.sw'):
